@@ -79,9 +79,9 @@ func (txn *Txn) rangeWrite(fn func(commitID uint64, chunk commit.Chunk, fill bit
 	lock := txn.owner.slock
 	txn.dirty.Range(func(x uint32) {
 		chunk := commit.Chunk(x)
-		commitID := commit.Next()
 		verifYield(1, uint64(chunk))
 		lock.Lock(uint(chunk))
+		commitID := commit.Next() // drawn under the latch: IDs of a block follow its apply order
 
 		// Compute the fill and set the last commit ID
 		txn.owner.lock.RLock()
